@@ -85,7 +85,9 @@ RULE = ('crystals built from literal fractional coordinates: fcc (setting f and 
         'object, optionally followed by set_shift(), with nothing / only the flag / another shift in the call); the '
         'centre: none / Cartesian / box-relative with all three components / along n onto another gap between atomic '
         'planes (also off its middle, also written box-relative) crossed with the centerscale flag; boundary box / '
-        'cylinder, no width / 0 / widths 0 .. 3.5 / relative to a, crossed with the boundaryscale flag (also larger than the '
+        'cylinder, no width / 0 / widths 0 .. 3.5 / relative to a, crossed with the boundaryscale flag; EVERY boolean flag of a call '
+        '(shiftscale at construction / in set_shift / in the generator, centerscale, boundaryscale, linear, return_base_system) given as '
+        'Python bool, as 1 / 0 or as numpy boolean (flag_form), the truth value deciding (also larger than the '
         'system) plus probe widths 1e-5 on either side of '
         'the depth of an atom below every face of the region / of an atom\'s distance from the line / of each surface-layer '
         'edge, linear or elastic arrays, cutoffs 0.2 .. 1.2, with / without return_base_system; disregistry with planepos = '
@@ -314,16 +316,31 @@ def _hex4(v, plane=False):
 SHIFT_KEYS = ('shift', 'shiftindex', 'shiftscale')
 
 
-def _shift_kwargs(spec):
+FLAG_KEYS = ('shiftscale', 'centerscale', 'boundaryscale', 'linear', 'return_base_system')
+FLAG_FORMS = (None, None, 'int', 'npbool')
+
+
+def _flag(value, form):
+    """a boolean flag the way a caller may hold it: a Python bool (form None), the integer 1 / 0, or a numpy boolean (what a
+    comparison of numpy numbers yields).  The truth value is what the documentation speaks about."""
+    if form == 'int':
+        return int(bool(value))
+    if form == 'npbool':
+        return _np().bool_(bool(value))
+    return bool(value)
+
+
+def _shift_kwargs(spec, form=None):
     """the shift arguments of one call (constructor, set_shift, generator) exactly as the caller would write them:
     any subset of shift / shiftindex / shiftscale (shiftscale may accompany an index or stand alone)."""
     kw = {}
+    form = form if form is not None else spec.get('flag_form')
     if spec.get('shift') is not None:
         kw['shift'] = [float(x) for x in spec['shift']]
     if spec.get('shiftindex') is not None:
         kw['shiftindex'] = spec['shiftindex']
     if spec.get('shiftscale') is not None:
-        kw['shiftscale'] = bool(spec['shiftscale'])
+        kw['shiftscale'] = _flag(spec['shiftscale'], form)
     return kw
 
 
@@ -340,7 +357,7 @@ def make_disl(case):
     d = am.defect.Dislocation(ucell, C, burgers=[float(x) for x in b], ξ_uvw=[float(x) for x in xi],
                               slip_hkl=[int(x) for x in hkl], conventional_setting=CRYSTALS[case['crystal']][0],
                               m=case['m'], n=case['n'], **kw)
-    d._c13_case = {k: v for k, v in case.items() if k not in SHIFT_KEYS}
+    d._c13_case = {k: v for k, v in case.items() if k not in SHIFT_KEYS and k != 'flag_form'}
     return ucell, d
 
 
@@ -605,10 +622,13 @@ def gen_config(rng, d, kind, nmax=220):
         cfg['sm_form'] = rng.choice(['pairs', 'float', 'short', 'long', 'str'])
     if rng.random() < 0.10:
         cfg['noret'] = True
+    # every boolean flag of the call (shiftscale at construction / in set_shift / in the generator, centerscale, boundaryscale,
+    # linear, return_base_system) as Python bools, as 1 / 0, or as numpy booleans: the truth value decides
+    cfg['flag_form'] = rng.choice(FLAG_FORMS)
     return cfg
 
 
-NOT_KW = ('kind', 'as_tuple', 'planepos', 'probe', 'init', 'setshift', 'noret', 'sm_form')
+NOT_KW = ('kind', 'as_tuple', 'planepos', 'probe', 'init', 'setshift', 'noret', 'sm_form', 'flag_form')
 
 
 def _sm_form(sm, form):
@@ -632,7 +652,8 @@ def run_config(d, cfg):
     cfg['noret']: called without return_base_system, the systems are read from the object's attributes.
     The shift of the object after every step is recorded in object._c13_trace."""
     np = _np()
-    kw = {k: v for k, v in cfg.items() if k not in NOT_KW and k not in SHIFT_KEYS}
+    form = cfg.get('flag_form')
+    kw = {k: (_flag(v, form) if k in FLAG_KEYS else v) for k, v in cfg.items() if k not in NOT_KW and k not in SHIFT_KEYS}
     kw.update(_shift_kwargs(cfg))
     given = None
     if kw.get('sizemults') is not None:
@@ -656,7 +677,7 @@ def run_config(d, cfg):
     if cfg.get('init') is not None:
         _old = d
         try:
-            _u, d = make_disl(dict(d._c13_case, **cfg['init']))
+            _u, d = make_disl(dict(d._c13_case, **cfg['init'], flag_form=form))
         except Exception as e:  # noqa
             return ('err', 'init ' + _err_class(e), str(e)[:160], d)
         for k_ in ('_c13_shifts',):
@@ -665,7 +686,7 @@ def run_config(d, cfg):
         obs('ctor', d)
         if cfg.get('setshift') is not None:
             try:
-                d.set_shift(**_shift_kwargs(cfg['setshift']))
+                d.set_shift(**_shift_kwargs(cfg['setshift'], form))
                 obs('set', d)
             except Exception as e:  # noqa
                 obs('set', d, e)
@@ -681,7 +702,7 @@ def run_config(d, cfg):
                 return ('err', 'return-value', 'the system returned without return_base_system is not the disl_system '
                         'attribute of the object', d)
         else:
-            base, disl = gen(return_base_system=True, **kw)
+            base, disl = gen(return_base_system=_flag(True, form), **kw)
     except Exception as e:  # noqa
         obs('gen', d, e)
         obs('after-refusal', d)
